@@ -25,6 +25,10 @@
 (* server while it was waiting / after its call had returned (facts about   *)
 (* the network; what the client made of it shows in the pool recorded with  *)
 (* the next "done" / "stray").                                              *)
+(* A behaviour is run with the real IPClient or the real SCIONClient (NTS   *)
+(* enabled, same-AS empty path, the proxy as next hop; "reset" names it:    *)
+(* tr).  "scmp": the proxy handed the waiting SCION client an SCMP message  *)
+(* (a fact about the network, like "stale").                                *)
 (* Behaviours are concatenated; "reset" starts a new one.                  *)
 (* The cfg _c12 evaluates, on the same records, the clause of C12 (property *)
 (* section of KeyProvider.tla) about the key new cookies are sealed with.   *)
@@ -46,8 +50,10 @@ MaxEx   == 0
 ProbeNs == {}
 ProbeUids == {}
 MaxOld == 0
+Transports == {"ip", "scion"}
+ScmpTypes == {"unreach", "echorep", "param"}
 
-VARIABLES now, prov, pool, sess, used, seen, phase, net, rep, pre, clean, nex, nextId, obs, old, tries,
+VARIABLES now, prov, pool, sess, used, seen, phase, net, rep, pre, clean, nex, nextId, obs, old, tries, tr,
           l,     \* position of the last event consumed
           aux    \* what the harness observed besides the model state (real decryption results, flags)
 INSTANCE NtsCookies
@@ -68,6 +74,7 @@ TInit ==
   /\ l = 1
   /\ aux = NoAux
   /\ Init
+  /\ tr = "ip"
 
 TNext ==
   /\ l < Len(Trace)
@@ -76,7 +83,9 @@ TNext ==
   /\ old' = << >>       \* (the network's memory is the proxy's; the clauses do not refer to it)
   \* datagrams other than the genuine reply handed to the client during the current call
   /\ tries' = (LET e == Trace[l + 1] IN
-                IF e.ev = "stale" THEN tries + 1 ELSE IF e.ev \in {"reset", "req", "done"} THEN 0 ELSE tries)
+                IF e.ev \in {"stale", "scmp"} THEN tries + 1 ELSE IF e.ev \in {"reset", "req", "done"} THEN 0 ELSE tries)
+  \* the client the behaviour is run with
+  /\ tr' = (LET e == Trace[l + 1] IN IF e.ev = "reset" THEN e.tr ELSE tr)
   /\ LET e == Trace[l + 1] IN
      \/ /\ e.ev = "reset"
         /\ now' = 0 /\ prov' = ProvOf(e.prov)
@@ -172,6 +181,9 @@ TNext ==
         /\ UNCHANGED <<now, pool, sess, used, phase, net, pre, clean>>
      \/ /\ e.ev = "stale"
         /\ obs' = "stale" /\ aux' = NoAux
+        /\ UNCHANGED <<now, prov, pool, sess, used, seen, phase, net, rep, pre, clean>>
+     \/ /\ e.ev = "scmp"      \* an SCMP message (e.typ) handed to the waiting SCION client
+        /\ obs' = "scmp" /\ aux' = NoAux
         /\ UNCHANGED <<now, prov, pool, sess, used, seen, phase, net, rep, pre, clean>>
      \/ /\ e.ev = "stray"
         /\ pool' = e.pool
@@ -278,6 +290,7 @@ StrictStep ==
   /\ Dr("fail", (obs' = "fail" /\ ~aux.fn /\ phase # "idle") =>
        (IdSeq(pool') = IdSeq(pool) /\ (phase = "resp" => (rep.bad \/ tries > MaxRetries))))
   /\ Dr("stray", obs' = "stray" => IdSeq(pool') = IdSeq(pool))
+  /\ Dr("scmp", obs' = "scmp" => (tr = "scion" /\ phase \in {"resp", "wait"}))
   /\ Dr("nosend", (obs' = "fail" /\ phase = "idle" /\ ~aux.fn /\ pool # << >>) => IdSeq(pool') = IdSeq(Tail(pool)))
   /\ Dr("tick", obs' = "tick" => (prov' = prov /\ now' > now))
   /\ Dr("cookielen", aux'.lens)
